@@ -241,24 +241,24 @@ class C03(Spec):
                 else:                                   # quick: 3x4, 4x3, 4x4 sampled
                     for _ in range(1200):
                         cases.append(pat_case(nr, nc, rng.getrandbits(n), rng, zero_prob=0.05))
-        for _ in range(300 if quick else 6000):
+        for _ in range(300 if quick else 2000):
             nr, nc = rng.randrange(3, 13), rng.randrange(3, 13)
             cases.append(pat_case(nr, nc, structured_code(nr, nc, rng), rng))
-        for _ in range(12 if quick else 400):
+        for _ in range(12 if quick else 80):
             nr, nc = rng.randrange(13, 41), rng.randrange(13, 41)
             cases.append(pat_case(nr, nc, structured_code(nr, nc, rng), rng))
-        for _ in range(80 if quick else 1500):
+        for _ in range(80 if quick else 600):
             cases.append(totals_case(rng))
         for _ in range(30 if quick else 300):
             nr, nc = rng.randrange(1, 8), rng.randrange(1, 8)
             code = structured_code(nr, nc, rng)
             A = [[rng.randrange(1, 10) if (code >> (r * nc + c)) & 1 else 0 for c in range(nc)] for r in range(nr)]
             cases.append({'kind': 'partials', 'A': A, 'x': [rng.randrange(-4, 5) for _ in range(nc)]})
-        for _ in range(40 if quick else 600):
+        for _ in range(40 if quick else 300):
             cases.append(hist_case(rng))
-        for _ in range(40 if quick else 600):
+        for _ in range(40 if quick else 300):
             cases.append(execcomp_case(rng))
-        for _ in range(30 if quick else 400):
+        for _ in range(30 if quick else 200):
             cases.append(nlcomp_case(rng))
         return cases
 
